@@ -98,7 +98,7 @@ func (m *Model) Create(e ecs.Entity, ids []int, vals []int, target ecs.Entity) E
 	me := &MEnt{Comps: map[int][]byte{}}
 	for i, id := range ids {
 		if vals != nil {
-			me.Comps[id] = Pattern(vals[i], m.Types[id].Size)
+			me.Comps[id] = m.Types[id].Pat(vals[i])
 		} else {
 			me.Comps[id] = m.zero(id)
 		}
@@ -155,7 +155,7 @@ func (m *Model) Exchange(e ecs.Entity, add []int, vals []int, rem []int, hasTarg
 	}
 	for i, id := range add {
 		if vals != nil {
-			me.Comps[id] = Pattern(vals[i], m.Types[id].Size)
+			me.Comps[id] = m.Types[id].Pat(vals[i])
 		} else {
 			me.Comps[id] = m.zero(id)
 		}
